@@ -1123,3 +1123,42 @@ pub fn c19(rec: &mut Rec, lm: &Landmarks, rng: &mut Rng, thorough: bool) {
     }
     let _ = (safe_epoch(|| m.e), civil_from_days(0), safe(|| Duration::ZERO), EpGen::new(lm, false).lms.len());
 }
+
+// ------------------------------------------------------------------ L2 for the tokenizer model
+
+/// Concretises every class string TLC explored in MC_Tokenizer and runs the real Epoch::from_gregorian_str on it.
+/// The trace specification evaluates spec/TokenizerModel.tla on the class string and compares (transcription
+/// drift); a panic is a violation of C13 whatever the model says.
+pub fn tok_model(m: &mut EM, path: &str) -> u64 {
+    let txt = match std::fs::read_to_string(path) {
+        Ok(t) => t,
+        Err(_) => return 0,
+    };
+    let mut n = 0u64;
+    for line in txt.lines() {
+        let v: serde_json::Value = match serde_json::from_str(line) {
+            Ok(v) => v,
+            Err(_) => continue,
+        };
+        let cls: Vec<String> = v.as_array().map(|a| a.iter().map(|x| x.as_str().unwrap_or("").to_string()).collect()).unwrap_or_default();
+        let mut s = String::new();
+        for c in &cls {
+            s.push_str(match c.as_str() {
+                "d" => "1",
+                "x" => "U",
+                "e2" => "\u{e9}",
+                "n2" => "\u{663}",
+                "e3" => "\u{20ac}",
+                "e4" => "\u{1d11e}",
+                other => other,
+            });
+        }
+        n += 1;
+        m.rec.episode();
+        let o = s.clone();
+        let r = with_deadline(DEADLINE_S, move || Epoch::from_gregorian_str(&o).map_err(|_| ()));
+        let jc: Vec<String> = cls.iter().map(|c| format!("\"{}\"", c)).collect();
+        m.rec.ev("tok_model", format!("\"cls\":[{}],\"s\":{},\"res\":{}", jc.join(","), jstr(&s), jparsed_epoch(&r)), true);
+    }
+    n
+}
